@@ -138,8 +138,15 @@ func RunC02(env *sim.Env) {
 		src, mutKind, ok = groundTruth(t, src, dc, victim, names)
 		mustReject = ok && valid
 	}
+	if len(src) > 1<<18 {
+		src = src[:1<<18]
+		mustReject = false // the inserted mistake may have been cut off
+	}
 	if len(src) > 4096 {
-		src = src[:4096]
+		env.Stat("probe:source_longer_than_4KiB", 1)
+	}
+	if len(src) > 65536 {
+		env.Stat("probe:source_longer_than_64KiB", 1)
 	}
 	files[victim] = src
 
